@@ -1671,6 +1671,8 @@ def _num_method(ev, x: Num, name, args, kwargs, fr, node):
         return x
     if name == "argmin" or name == "argmax":
         return Num(sp.Function("R" + name)(x.expr))
+    if name == "tobytes":
+        return OpaqueV("bytes", payload=("num", str(x.expr), str(x.unit) if getattr(x, "unit", None) is not None else None))
     ev.unsupported(f"method .{name}() on a numeric term", node, fr)
 
 
@@ -1719,6 +1721,8 @@ def nd_method(ev, x: NdArr, name, args, kwargs, fr, node):
         return nd_permute(x, perm or list(reversed(range(x.ndim))))
     if name in ("compute", "persist", "rechunk", "view", "ravel"):
         return x
+    if name == "tobytes":
+        return OpaqueV("bytes", payload=("nd", tuple(x.shape), tuple(str(getattr(e, "expr", e)) for e in x.items)))
     ev.unsupported(f"method .{name}() on an explicit array", node, fr)
 
 
